@@ -563,7 +563,7 @@ class World:
             reads0 = FakeDatetime._reads
         meth = getattr(lf, 'add_' + kind)
         if 'name' in op:
-            obj = meth(op['name'], **kw)
+            obj = meth(sys.intern(op['name']) if isinstance(op['name'], str) else op['name'], **kw)   # (a literal in the caller's code)
         else:
             obj = meth(**kw)
         if kind == 'origin':
